@@ -445,6 +445,7 @@ type modelAns struct {
 	feat  string
 	plus  bool
 	lsk   string // lastStrKey the instance is left with (hex)
+	lk    string // lastKey the instance is left with (hex)
 	fault bool
 }
 
@@ -463,6 +464,10 @@ func parseModel(ans string) modelAns {
 	m.lsk = "-"
 	if len(parts) >= 4 {
 		m.lsk = parts[3]
+	}
+	m.lk = "-"
+	if len(parts) >= 5 {
+		m.lk = parts[4]
 	}
 	head := parts[0]
 	if strings.HasPrefix(head, "ok") {
